@@ -86,3 +86,25 @@ fn(M + '.implicit_tag:resolve_implicit_tag', props=['C01'],
             "implies(parent_name == 'p', node.name == 'span')",
             "implies(not (parent_name in ELEMENT_MAP), node.name == ('span' if is_inline(parent_name, config) else 'div'))"],
    modifies=['node.name'], allocates=True)
+
+# ---------------------------------------------------------------------------------------
+# attribute merging (C03)
+# ---------------------------------------------------------------------------------------
+cls(A + '.convert:AbbreviationAttribute',
+    fields={'name': 'any', 'value': 'any', 'value_type': 'str', 'boolean': 'bool', 'implied': 'bool', 'multiple': 'any'})
+
+fn(M + '.attributes:merge_declarations', props=['C03'],
+   params={'dest': 'AbbreviationAttribute', 'src': 'AbbreviationAttribute', 'config': 'Config'},
+   returns='AbbreviationAttribute',
+   requires=['dest is not src'],
+   # "for any other repeated attribute the last value wins (the first one under output.reverseAttributes)";
+   # the later mention wins also when it has no value (a name without value gets an empty value)
+   ensures=['result is dest',
+            "implies(not config.options.get('output.reverseAttributes'), same(dest.value, src.value))",
+            "implies(config.options.get('output.reverseAttributes'), same(dest.value, old(dest.value)))",
+            # implied / boolean are sticky, an expression type is kept
+            'dest.implied == (old(dest.implied) or src.implied)',
+            'dest.boolean == (old(dest.boolean) or src.boolean)',
+            "implies(old(dest.value_type) == 'expression', dest.value_type == 'expression')",
+            "implies(old(dest.value_type) != 'expression', same_str(dest.value_type, src.value_type))"],
+   modifies=['dest.name', 'dest.value', 'dest.implied', 'dest.boolean', 'dest.value_type'])
